@@ -6,11 +6,11 @@ import LenaModel.Props.C16
 /-! # C16 — `run` around a Run element that may stop reading its block early
 
 Clause of the property: "for **any** wrapped element … `run` yields block by block exactly what the element yields
-for each consecutive block of n values".  For a Run element that does not read its whole block the code in /repo
-does this only with `buffer_input`.  Judgement (notes/C16_defect_1.md): a defect of `_run_run` — the full clause
-`run_blocks_full` is *false* of the transcribed code (`not_run_blocks_full`, witnesses for `buffer_output` and for
-`yield_on_remainder`); proved are `run_blocks_partial` (elements that read their whole block, all three variants) and
-`run_blocks_buffer_input` (every element, `buffer_input`). -/
+for each consecutive block of n values".  Main theorem: `run_blocks_after_patch` — it holds for every Run element, for
+the `_run_run` of /repo now (`runRunQ`; fix dbe92ef, notes/C16_defect_1.md).  About the code BEFORE that fix (`runRunP`,
+pinned): the clause `run_blocks_full` was *false* (`not_run_blocks_full`, witnesses for `buffer_output` and for
+`yield_on_remainder`); what held was `run_blocks_partial` (elements that read their whole block) and
+`run_blocks_buffer_input` (every element, `buffer_input` — that branch is unchanged). -/
 
 namespace Lena.C16
 
@@ -19,13 +19,13 @@ variable {σ α β : Type}
 /-- the element reads every block completely and runs into its end -/
 def Whole (e : ElR σ α β) : Prop := ∀ s b, b.length ≤ (e.run s b).2.2.1 ∧ (e.run s b).2.2.2 = true
 
-/-- **The clause at full strength**: whatever the flags, `run` around any Run element yields what the element yields
-for each consecutive block of `n` values handed to it (and the loop ends). -/
+/-- **The clause at full strength, for the `_run_run` before fix dbe92ef** (`runRunP`): whatever the flags, `run` around any
+Run element yields what the element yields for each consecutive block of `n` values handed to it (and the loop ends). -/
 def run_blocks_full : Prop :=
   ∀ (e : ElR (List Nat) Nat (List Nat)) (N : Nat) (rst bi yor : Bool) (s : List Nat) (xs : List Nat), 0 < N →
     runRunP e N rst bi yor s xs = (specBlocksP e N rst yor s (chunks N xs), false)
 
-/-- **It is false of the code in /repo**: an element that reads one value of its block, block size 3, flow `0..6`.
+/-- **It was false of the code before the fix**: an element that reads one value of its block, block size 3, flow `0..6`.
 The statement (and `buffer_input`) give `[0]`, `[0, 3]`; `buffer_output` yields nothing (`slice_.count` is never set:
 all results lost); `yield_on_remainder` hands the element the "blocks" `[0,1,2]`, `[1,2,3]`, … — seven results. -/
 theorem not_run_blocks_full : ¬ run_blocks_full := by
@@ -163,16 +163,76 @@ theorem run_blocks_buffer_input (e : ElR σ α β) (N : Nat) (hN : 0 < N) (rst :
   rw [runRunBIP_toEl e N rst _ xs s (Nat.le_refl _), runRunBI_spec _ _ _ hN _ xs s (Nat.le_refl _), specBlocksP_toEl]
   rfl
 
-/-- **After notes/C16_defect_1.patch** (`_run_run` skips what the element left unread of its block, and counts it)
-the three loops are those of `Model/C16.lean` applied to the element that forgets how much it read, and the clause
-holds at full strength for every Run element. -/
-theorem run_blocks_after_patch (e : ElR σ α β) (c : Cfg) (hN : 0 < c.bufsize) (hk : c.runKind = .runRun) (s : σ)
-    (xs : List α) :
-    (runFR e.toEl c s xs).1 = specBlocksP e c.bufsize c.reset c.yor s (chunks c.bufsize xs) := by
-  rw [run_blocks e.toEl c hN, specBlocksP_toEl]
-  unfold blockOf
-  rw [hk]
-  rfl
+theorem runRunYorQ_toEl (e : ElR σ α β) (N : Nat) (rst : Bool) : ∀ (k : Nat) (xs : List α) (s : σ), xs.length ≤ k →
+    runRunYorQ e N rst s xs = runRunYor e.toEl N rst s xs
+  | 0, xs, s, h => by
+    have : xs = [] := List.length_eq_zero_iff.mp (by omega)
+    subst this; rw [runRunYorQ, runRunYor]
+  | k + 1, [], s, _ => by rw [runRunYorQ, runRunYor]
+  | k + 1, x :: rest, s, h => by
+    rw [runRunYorQ, runRunYor]
+    simp only [List.length_cons] at h
+    rw [runRunYorQ_toEl e N rst k _ _ (by simp; omega)]
+    rfl
+
+theorem runRunBOQ_toEl (e : ElR σ α β) (N : Nat) (rst : Bool) : ∀ (k : Nat) (xs : List α) (s : σ), xs.length ≤ k →
+    runRunBOQ e N rst s xs = runRunBO e.toEl N rst s xs
+  | 0, xs, s, h => by
+    have : xs = [] := List.length_eq_zero_iff.mp (by omega)
+    subst this
+    rw [runRunBOQ, runRunBO]
+    by_cases hN : N = 0
+    · rw [dif_pos hN, dif_pos hN]
+    · rw [dif_neg hN, dif_neg hN]
+      have hlen : (([] : List α).take N).length < N := by simp; omega
+      simp only []
+      rw [dif_pos hlen, dif_pos hlen]
+      rfl
+  | k + 1, xs, s, h => by
+    rw [runRunBOQ, runRunBO]
+    by_cases hN : N = 0
+    · rw [dif_pos hN, dif_pos hN]
+    · rw [dif_neg hN, dif_neg hN]
+      simp only []
+      by_cases hlen : (xs.take N).length < N
+      · rw [dif_pos hlen, dif_pos hlen]; rfl
+      · rw [dif_neg hlen, dif_neg hlen]
+        have hl : (xs.take N).length = N := by simp only [List.length_take] at hlen ⊢; omega
+        have hpos : 0 < xs.length := by
+          rcases xs with _ | ⟨a, l⟩
+          · simp at hl; omega
+          · simp
+        rw [runRunBOQ_toEl e N rst k (xs.drop N) _ (by simp; omega)]
+        rfl
+
+/-- **`run` block by block, for EVERY Run element** (the code of /repo since fix dbe92ef = notes/C16_defect_1.patch): all
+three variants of `_run_run`, every block size, flow and state, however little of its block the element reads — the
+clause of the property at full strength. -/
+theorem run_blocks_after_patch (e : ElR σ α β) (N : Nat) (hN : 0 < N) (rst bi yor : Bool) (s : σ) (xs : List α) :
+    (runRunQ e N rst bi yor s xs).1 = specBlocksP e N rst yor s (chunks N xs) := by
+  unfold runRunQ
+  rw [specBlocksP_toEl]
+  cases yor with
+  | true =>
+    simp only [if_true]
+    rw [runRunYorQ_toEl e N rst _ xs s (Nat.le_refl _), runRunYor_spec _ _ _ hN _ xs s (Nat.le_refl _)]
+    rfl
+  | false =>
+    simp only [Bool.false_eq_true, if_false]
+    cases bi with
+    | true =>
+      simp only [if_true]
+      rw [runRunBIP_toEl e N rst _ xs s (Nat.le_refl _), runRunBI_spec _ _ _ hN _ xs s (Nat.le_refl _)]
+      rfl
+    | false =>
+      simp only [Bool.false_eq_true, if_false]
+      rw [runRunBOQ_toEl e N rst _ xs s (Nat.le_refl _), runRunBO_spec _ _ _ hN _ xs s (Nat.le_refl _)]
+      rfl
+
+/-- the element that reads one value of its block, block size 3, flow `0..6`, all three variants -/
+example : (runRunQ (firstEl (some 1)) 3 false false false [] [0, 1, 2, 3, 4, 5, 6]).1 = [[0], [0, 3]] := by decide +kernel
+example : (runRunQ (firstEl (some 1)) 3 false true false [] [0, 1, 2, 3, 4, 5, 6]).1 = [[0], [0, 3]] := by decide +kernel
+example : (runRunQ (firstEl (some 1)) 3 true false true [] [0, 1, 2, 3, 4, 5, 6]).1 = [[0], [3], [6]] := by decide +kernel
 
 /-- the elements of `Model/C16.lean` read their whole block (the hypothesis is satisfiable) -/
 theorem whole_ofEl (e : El σ α β) : Whole (ElR.ofEl e) := fun _ _ => ⟨Nat.le_refl _, rfl⟩
